@@ -393,7 +393,9 @@ func (b *Binlog) RunPollLoop() error {
 				continue
 			} else if err != nil {
 				b.logger.Error("livesql: failed to parse rows event", "error", err)
-				continue
+				// We don't know what changed, so every live query on the table has
+				// to be invalidated: deliver an update that carries the error.
+				u = &update{table: string(inner.Table.Table), err: err}
 			}
 
 			b.delayMu.Lock()
